@@ -16,6 +16,9 @@ IsSquareQ(q) == (\E k \in 0..q[1] : k * k = q[1]) /\ (\E k \in 0..q[2] : k * k =
 SqrtQ(q) == <<ISqrt(q[1]), ISqrt(q[2])>>
 HalfBase(l, x, y) == RAdd(ROne, RDiv(Dist2(x, y), RSq(l)))
 RQHalf(v, l, x, y) == RDiv(v, SqrtQ(HalfBase(l, x, y)))
+\* mixture parameter 3/2: RQ = v / base^(3/2) with base = 1 + d^2 / (3 l^2) a rational square
+ThreeHalvesBase(l, x, y) == RAdd(ROne, RDiv(Dist2(x, y), RMul(R(3), RSq(l))))
+RQThreeHalves(v, l, x, y) == LET r == SqrtQ(ThreeHalvesBase(l, x, y)) IN RDiv(v, RMul(r, RMul(r, r)))
 RBFExponent(l, x, y) == RDiv(Dist2(x, y), RMul(R(2), RSq(l)))
 \* the crate as first read (regression witness): exponent +alpha
 RQWrongSign(v, alpha, l, x, y) == RMul(v, RPow(RAdd(ROne, RDiv(Dist2(x, y), RMul(R(2 * alpha), RSq(l)))), alpha))
